@@ -34,6 +34,7 @@ static void cmp1(int N,int sd){
    rfc_pkt m; unsigned char toc=0xEE; const unsigned char *fr[48]; opus_int16 sz[48]; int po=-7; opus_int32 pko=-7; const unsigned char *pp=NULL; opus_int32 pl=-7;
    unsigned char *b=blk[N]; int r,i,bad=0,w=hlen<N?hlen:N;
    memcpy(b,hdr,w);
+   if (N>w) memset(b+w,0x01,(N-w)<100?(N-w):100);   /* deterministic bytes where a parser could look for further length fields */
    rfc_parse(b,N,sd,&m);
    r=opus_packet_parse_impl(b,N,sd,&toc,fr,sz,&po,&pko,&pp,&pl);
    MC_INC(c_eval);
